@@ -214,6 +214,34 @@ def _check_forms(case, ctx):
                 ctx.close("forms-act-identically", a, b, rtol=1e-9, scale=max(1e-12, float(numpy.max(numpy.abs(b)))),
                           where=tag + "/copy=False-on-real-operator")
 
+    if case["td"]:
+        # the time-dependent tensor in tensor form acting on an operator: at every time index the contraction of that
+        # time's four-index tensor with the operator
+        def td_action():
+            res = numpy.array(Tt.apply(Operator(data=A.copy())).data)
+            return res, numpy.array(Tt.data)
+        ok, ra = guarded(ctx, "apply", td_action, tag + "/tensor")
+        if ok:
+            want_a = numpy.array([numpy.tensordot(ra[1][k], A) for k in range(ra[1].shape[0])])
+            ctx.close("td-tensor-acts-as-its-elements", ra[0], want_a, rtol=1e-10,
+                      scale=max(1e-300, float(numpy.max(numpy.abs(want_a)))), where=tag)
+    elif case["which"] == "lindblad":
+        # a second operator-form Lindblad tensor from the *same* system-bath interaction object, both used inside one
+        # basis context: the same action as outside, for both
+        def twins():
+            from quantarhei.qm import LindbladForm
+            Tb = LindbladForm(ho, To.SystemBathInteraction if hasattr(To, "SystemBathInteraction") else To.sbi)
+            outside = numpy.array(To.apply(Operator(data=A.copy())).data)
+            with qr.eigenbasis_of(ho):
+                o1 = To.apply(Operator(data=A.copy()))
+                o2 = Tb.apply(Operator(data=A.copy()))
+                a1, a2 = numpy.array(o1.data), numpy.array(o2.data)
+            return outside, a1, a2
+        ok, tw = guarded(ctx, "apply", twins, tag + "/op/twin")
+        if ok:
+            ctx.close("forms-from-the-same-interaction-act-identically", tw[2], tw[1], rtol=1e-9,
+                      scale=max(1e-12, float(numpy.max(numpy.abs(tw[1])))), where=tag)
+
     # ---- (2) propagation with both forms ----------------------------------------------------------------
     rho0 = gens.density_matrix(case["rho"])
     m, nref = case["m"], case["nref"]
